@@ -139,6 +139,7 @@ func runC19(r *engine.Run) {
 	r.Rule("AGREE-shape", "ComputeTree and SetTree establish the same three fields from computeSize; a path has levels - 1 elements; the root is the last element of the tree")
 	r.Rule("FRESH-tree", "GetTree hands out the node slice and SetTree installs the caller's slice without copying, so a method that stores nodes element by element (ComputeTree) assigns the tree field only from a make: recomputing never writes into memory an exported or loaded tree still uses")
 	r.Rule("DOM-atomic", "in SetTree no store to a receiver field can be followed by an error return: a rejected load leaves the tree (nodes, leaf count, levels) exactly as it was")
+	r.Rule("PURE-state", "no function of the Merkle tree files stores to a package-level variable or appends/copies into memory obtained from one: building and verifying are re-entrant")
 	r.NotDec = append(r.NotDec, "that paths verify for every leaf count and index and do not verify for another leaf (index arithmetic over runtime n, idx: value-level)", "collision resistance of the hash")
 	verify := r.Fn("AGREE-pairing", pkgUtil, "", "VerifyMerklePath")
 	build := r.Fn("AGREE-pairing", pkgUtil, "MerkleTree", "ComputeTree")
@@ -153,6 +154,7 @@ func runC19(r *engine.Run) {
 	c19Offered(r, verify)
 	c19FreshTree(r, "FRESH-tree")
 	c19SetTreeAtomic(r, "DOM-atomic")
+	c19Pure(r, "PURE-state")
 }
 
 func mhashCalls(f *ssa.Function) []*ssa.Call {
@@ -656,5 +658,65 @@ func c19SetTreeAtomic(r *engine.Run, rule string) {
 	})
 	if n < 3 || len(errRets) < 1 {
 		r.Anchor(rule, fmt.Errorf("unresolved anchor: %d field stores / %d error returns in SetTree", n, len(errRets)))
+	}
+}
+
+// c19Pure: the Merkle routines keep no mutable package-level state: no function
+// of the Merkle tree files stores to a global or writes through memory obtained
+// from one (a scratch buffer shared by all callers makes hashing non re-entrant:
+// concurrent builders and verifiers corrupt each other's hashes).
+func c19Pure(r *engine.Run, rule string) {
+	n := 0
+	for _, f := range funcsOfPkg(r, pkgUtil) {
+		pos := r.P.Pos(f.Pos())
+		if !strings.Contains(pos, "merkle_tree") {
+			continue
+		}
+		n++
+		bad := ""
+		fromGlobal := func(v ssa.Value) bool {
+			root := engine.AddrRoot(v)
+			if _, ok := root.(*ssa.Global); ok {
+				return true
+			}
+			// a slice loaded from a global (or re-sliced from one)
+			for i := 0; i < 6; i++ {
+				switch x := v.(type) {
+				case *ssa.Slice:
+					v = x.X
+					continue
+				case *ssa.UnOp:
+					if _, ok := x.X.(*ssa.Global); ok {
+						return true
+					}
+				case *ssa.Call:
+					if b, ok := x.Call.Value.(*ssa.Builtin); ok && b.Name() == "append" {
+						v = x.Call.Args[0]
+						continue
+					}
+				}
+				break
+			}
+			return false
+		}
+		engine.Instrs(f, func(in ssa.Instruction) {
+			switch x := in.(type) {
+			case *ssa.Store:
+				if fromGlobal(x.Addr) {
+					bad = "store to package-level state at " + r.P.Pos(x.Pos())
+				}
+			case *ssa.Call:
+				if b, ok := x.Call.Value.(*ssa.Builtin); ok && (b.Name() == "append" || b.Name() == "copy") && fromGlobal(x.Call.Args[0]) {
+					bad = b.Name() + " into a package-level buffer at " + r.P.Pos(x.Pos())
+				}
+			}
+		})
+		if f.Name() == "init" {
+			continue
+		}
+		r.Check(bad == "", rule, fn(f)+"|no shared state", pos, "writes no package-level state", "a Merkle routine writes mutable package-level state ("+bad+"): hashing is no longer re-entrant, so trees built and paths verified concurrently get wrong hashes")
+	}
+	if n < 5 {
+		r.Anchor(rule, fmt.Errorf("unresolved anchor: %d functions of the Merkle tree files found", n))
 	}
 }
